@@ -44,10 +44,7 @@ let handle = function
         | f :: t -> (match cur with None -> failwith "emit: field before /" | Some r -> rows acc (Some (bytes_of_hex f :: r)) t) in
       let sizes = if layers = "-" then [] else List.map z_of_string (String.split_on_char ',' layers) in
       let d = List.fold_right (fun sz under -> DBuf (sz, [], under)) sizes (DRaw (bytes_of_hex pre)) in
-      (match emit_rows (z_of_string sep) (b2 crlf) { o_bufio = b2 isbufio; o_d = d } (rows [] None rest) with
-       | Ok b -> "ok " ^ hex_of_bytes b
-       | Unmod -> "unmod"
-       | _ -> "driver-error emit")
+      "ok " ^ hex_of_bytes (emit_rows (z_of_string sep) (b2 crlf) { o_bufio = b2 isbufio; o_d = d } (rows [] None rest))
   | "write" :: sep :: crlf :: fields ->
       "ok " ^ hex_of_bytes (write_record (z_of_string sep) (b2 crlf) (List.map bytes_of_hex fields))
   | "join" :: sep :: crlf :: fields ->
